@@ -27,6 +27,9 @@ import (
 //	nassuci <imsi:text-hex> <mncLen>       → ok <identity in REGISTRATION REQUEST> <identity in DEREGISTRATION REQUEST>: the contents of
 //	                                          the 5GS mobile identity IE (LV-E at octet 5) cut out of the octets that the real
 //	                                          nasTestpacket.GetRegistrationRequest / GetDeregistrationRequest produce, as RegisterUE / DeregisterUE call them
+//	regsuci <imsi:text-hex> <mnc:text-hex> <mcc:text-hex> → ok <identity in the first REGISTRATION REQUEST> <identity in the REGISTRATION
+//	                                          REQUEST inside SECURITY MODE COMPLETE>, cut out of the octets that the real CreateUE +
+//	                                          RegisterUE put on a socketpair; mnc / mcc are the configured serving PLMN (only len(mnc) matters)
 //	ngplmn <imsi:text-hex> <mncLen>        → ok <GlobalGNBID plmn> <BroadcastPLMN plmn> <NR-CGI plmn of InitialUEMessage>
 //	                                          <the one value of every PLMNIdentity in InitialUEMessage, UplinkNASTransport, UEContextReleaseComplete>
 //	                                          (the expression of ngsetup.go line 23, then the real builders)
@@ -68,6 +71,50 @@ func init() {
 			return hx(m[6 : 6+l])
 		}
 		return "ok " + cut(reg) + " " + cut(dereg)
+	})
+	registerOp("regsuci", func(a []string) string {
+		imsi, mnc, mcc := string(aHex(a[0])), string(aHex(a[1])), string(aHex(a[2]))
+		if !allDigits([]byte(imsi)) || len(imsi) > 18 || len(imsi) < 3+len(mnc)+1 || (len(mnc) != 2 && len(mnc) != 3) || len(mcc) != 3 ||
+			!allDigits([]byte(mnc)) || !allDigits([]byte(mcc)) {
+			panic(badArg{})
+		}
+		ue := stgutg.CreateUE(imsi, 0, "00112233445566778899aabbccddeeff", "0123456789abcdef0123456789abcdef", "")
+		var rnd, autn [16]byte
+		for k := range rnd {
+			rnd[k], autn[k] = byte(k+1), byte(0x80+k)
+		}
+		uls := runRegisterUE(ue, mnc, mcc, rnd, autn)
+		if len(uls) < 3 {
+			return "err"
+		}
+		cut := func(m []byte) string { // the 5GS mobile identity (LV-E at octet 5) of a plain REGISTRATION REQUEST
+			if len(m) < 6 || m[0] != 0x7e || m[2] != 0x41 {
+				return "not-a-registration-request"
+			}
+			l := int(m[4])<<8 | int(m[5])
+			if 6+l > len(m) {
+				return "short"
+			}
+			return hx(m[6 : 6+l])
+		}
+		first := cut(ulNasPdu(uls[0]))
+		// SECURITY MODE COMPLETE (integrity protected, NEA0): 7e 04 mac(4) sqn | 7e 00 5e, optional IEs, 71 len(2) <REGISTRATION REQUEST>
+		second := "no-container"
+		if n := ulNasPdu(uls[2]); len(n) > 10 && n[7] == 0x7e && n[9] == 0x5e {
+			p := n[10:]
+			for len(p) >= 3 {
+				l := int(p[1])<<8 | int(p[2])
+				if 3+l > len(p) {
+					break
+				}
+				if p[0] == 0x71 {
+					second = cut(p[3 : 3+l])
+					break
+				}
+				p = p[3+l:]
+			}
+		}
+		return "ok " + first + " " + second
 	})
 	ngplmn := func(a []string) string {
 		imsi := string(aHex(a[0]))
@@ -245,6 +292,15 @@ func suciCase(e *emitter, mcc, mnc string, msinLen int) {
 		e.op("nassuci", tx(imsi), i(int64(len(mnc))))
 	}
 	e.op("ngplmn", tx(imsi), i(int64(len(mnc))))
+	if len(imsi) <= 18 && e.rng.Intn(16) == 0 { // CreateUE parses the IMSI as a machine integer
+		// through the whole registration procedure; the configured serving PLMN is the subscriber's own, or (roaming) another
+		// one with an MNC of the same length: the SUCI is the subscriber's
+		cmcc, cmnc := mcc, mnc
+		if e.rng.Intn(2) == 0 {
+			cmcc, cmnc = digits(e, 3), digits(e, len(mnc))
+		}
+		e.op("regsuci", tx(imsi), tx(cmnc), tx(cmcc))
+	}
 	if e.rng.Intn(3) == 0 {
 		// a subscriber of another PLMN registers after NG Setup
 		mnc2 := digits(e, 2+e.rng.Intn(2))
